@@ -551,6 +551,14 @@ class Engine:
                     for st1, _ in self.eval(a, st1):
                         break
             yield ('raise', st1, name)
+        elif isinstance(n, ast.Assert) and getattr(self.c, 'asserts_raise', False):
+            # validation by assert: a failing assertion is a rejection of the input (AssertionError), not a defect
+            for st1, c in self.eval(n.test, st):
+                for st2, truth in self.split(st1, c, n):
+                    if truth:
+                        yield ('fall', st2, None)
+                    else:
+                        yield ('raise', st2, 'AssertionError')
         elif isinstance(n, ast.Assert):
             for st2, c in self.eval(n.test, st):
                 g = _z(to_bool(c)) if not isinstance(to_bool(c), bool) else z3.BoolVal(to_bool(c))
